@@ -77,6 +77,9 @@ structure FDecl where
   name : String
   params : List String
   body : S
+  /-- a defeat function (`!name`): its defeat calls go through the word `defeat`, because it may be
+  called from the body of a `try/stop` -/
+  dfn : Bool := false
   deriving Repr, Inhabited
 
 /-- code addresses of the functions of the program -/
@@ -500,21 +503,21 @@ structure CProg where
 
 def prologueLen (ck : Bool) : Nat := if ck then 5 else 0
 
-def funcLen (ck : Bool) (body : S) : Nat := prologueLen ck + lenS ck false body
+def funcLen (ck vd : Bool) (body : S) : Nat := prologueLen ck + lenS ck vd body
 
 /-- code addresses: each function right behind the previous one -/
 def layout (ck : Bool) : Nat → List FDecl → FAddr
   | _, [] => []
-  | a, fd :: fds => (fd.name, a) :: layout ck (a + funcLen ck fd.body) fds
+  | a, fd :: fds => (fd.name, a) :: layout ck (a + funcLen ck fd.dfn fd.body) fds
 
 def funsLen (ck : Bool) : List FDecl → Nat
   | [] => 0
-  | fd :: fds => funcLen ck fd.body + funsLen ck fds
+  | fd :: fds => funcLen ck fd.dfn fd.body + funsLen ck fds
 
 /-- length of all function code = address of the runtime library -/
-def progLen (ck : Bool) (pr : CProg) : Nat := funcLen ck pr.body + funsLen ck pr.funs
+def progLen (ck : Bool) (pr : CProg) : Nat := funcLen ck false pr.body + funsLen ck pr.funs
 
-def progFA (ck : Bool) (pr : CProg) : FAddr := layout ck (funcLen ck pr.body) pr.funs
+def progFA (ck : Bool) (pr : CProg) : FAddr := layout ck (funcLen ck false pr.body) pr.funs
 
 /-- address of the state word `defeat`: the words `try_fp` and `defeat` follow the entry frame -/
 def defeatAddr (cf : Config) (pr : CProg) : Nat := 5 * cf.w + cf.stackWords * cf.w + pr.params.length * cf.w + cf.w + cf.w
@@ -532,21 +535,21 @@ def paramGam (w : Nat) : (o : Nat) → List String → Gam
 def entryOff (w : Nat) (params : List String) : Nat := (params.length + 1) * w
 
 /-- one function placed at `base`: the stack check (checked builds), then the body -/
-def funcCode (cx : Cx) (fa : FAddr) (base : Nat) (params : List String) (body : S) : List Instr :=
+def funcCode (cx : Cx) (fa : FAddr) (base : Nat) (vd : Bool) (params : List String) (body : S) : List Instr :=
   (if cx.checked then
     [.j (.imm (base + 5)), .alu .sub cx.r1 (.st cx.fp) (.st 0),
      .hcond .hgeu (.st cx.r1) (.imm (pkS cx.w (entryOff cx.w params) body % cx.M)),
      .j (.imm (cx.B + off_stack_overflow)), .halt]
-   else []) ++ cS cx fa ⟨0, 0, false⟩ (paramGam cx.w (2 * cx.w) params) (base + prologueLen cx.checked) (entryOff cx.w params) body
+   else []) ++ cS cx fa ⟨0, 0, vd⟩ (paramGam cx.w (2 * cx.w) params) (base + prologueLen cx.checked) (entryOff cx.w params) body
 
 def funsCode (cx : Cx) (fa : FAddr) : Nat → List FDecl → List Instr
   | _, [] => []
-  | a, fd :: fds => funcCode cx fa a fd.params fd.body ++ funsCode cx fa (a + funcLen cx.checked fd.body) fds
+  | a, fd :: fds => funcCode cx fa a fd.dfn fd.params fd.body ++ funsCode cx fa (a + funcLen cx.checked fd.dfn fd.body) fds
 
 def progCode (cf : Config) (pr : CProg) : List Instr :=
   let cx := mkCx cf pr
   let fa := progFA cf.checked pr
-  funcCode cx fa 0 pr.params pr.body ++ funsCode cx fa (funcLen cf.checked pr.body) pr.funs
+  funcCode cx fa 0 false pr.params pr.body ++ funsCode cx fa (funcLen cf.checked false pr.body) pr.funs
 
 /-- the program has a `try/stop` (then the state section has the words `try_fp` and `defeat`) -/
 def hasStop : S → Bool
@@ -653,6 +656,7 @@ def callWith (M n : Nat) (fns : List FDecl) (w : Nat)
       | some (_, tr, .retv v) => some (tr, none, some v)
       | some (_, tr, .div0) => some (tr, some .div0, none)
       | some (_, tr, .ovf) => some (tr, some .ovf, none)
+      | some (_, tr, .defeat) => if fd.dfn then some (tr, some .defeat, none) else none
       | _ => none
 
 /-- `none` = no conclusion: out of fuel (see also `callWith`).  Output events only; the
@@ -901,9 +905,9 @@ def fromAst (p : Hid.Program) : Option CProg :=
   let names := (p.funcs.filter (fun f => f.name != "@is_you")).map (·.name)
   let conv (f : Hid.Func) : Option FDecl :=
     if (f.ret == .empty || f.ret == .int) && f.params.all (fun q => q.2 == .int) && !f.preemptive
-        && !(f.name.startsWith "@") && !(f.name.startsWith "!") then
+        && !(f.name.startsWith "@") then
       match f.body with
-      | .block ss => (toS names ss).map (fun b => { name := f.name, params := f.params.map (·.1), body := b })
+      | .block ss => (toS names ss).map (fun b => { name := f.name, params := f.params.map (·.1), body := b, dfn := f.name.startsWith "!" })
       | _ => none
     else none
   match p.funcs.find? (fun f => f.name == "@is_you") with
@@ -939,29 +943,37 @@ def boundB (Γ : List String) : B → Bool
   | .and l r => boundB Γ l && boundB Γ r
   | .or l r => boundB Γ l && boundB Γ r
 
-/-- variables are declared before use and never shadowed (`vd`: the list is inside the body of a `try/stop`) -/
-def wfS : Bool → List String → S → Bool
+/-- is `g` a defeat function of the program? -/
+def isDfn (fns : List FDecl) (g : String) : Bool :=
+  match fns.find? (fun fd => fd.name == g) with
+  | some fd => fd.dfn
+  | none => false
+
+/-- variables are declared before use and never shadowed; defeat functions are called only where the effective
+defeat is the word `defeat` (`vd`: the list is inside the body of a `try/stop` or of a defeat function), and only
+as statements (defeat functions that return a value are outside the modelled sub-language) -/
+def wfS (fns : List FDecl) : Bool → List String → S → Bool
   | _, _, .nil => true
   | _, _, .ret => true
-  | vd, Γ, .decl x e k => boundE Γ e && !Γ.contains x && wfS vd (x :: Γ) k
-  | vd, Γ, .assign x e k => Γ.contains x && boundE Γ e && wfS vd Γ k
-  | vd, Γ, .write e k => boundE Γ e && wfS vd Γ k
-  | vd, Γ, .writeln (some e) k => boundE Γ e && wfS vd Γ k
-  | vd, Γ, .writeln none k => wfS vd Γ k
-  | vd, Γ, .putc _ k => wfS vd Γ k
-  | vd, Γ, .block b k => wfS vd Γ b && wfS vd Γ k
-  | vd, Γ, .ifb c t e k => boundB Γ c && wfS vd Γ t && wfS vd Γ e && wfS vd Γ k
-  | vd, Γ, .loop c body cont k => boundB Γ c && wfS vd Γ body && wfS vd Γ cont && wfS vd Γ k
-  | vd, Γ, .defeat k => wfS vd Γ k
-  | vd, Γ, .defeatIf c k => boundB Γ c && isD c && wfS vd Γ k
-  | vd, Γ, .tryUndo body handler k => wfS vd Γ body && wfS vd Γ handler && wfS vd Γ k
+  | vd, Γ, .decl x e k => boundE Γ e && !Γ.contains x && wfS fns vd (x :: Γ) k
+  | vd, Γ, .assign x e k => Γ.contains x && boundE Γ e && wfS fns vd Γ k
+  | vd, Γ, .write e k => boundE Γ e && wfS fns vd Γ k
+  | vd, Γ, .writeln (some e) k => boundE Γ e && wfS fns vd Γ k
+  | vd, Γ, .writeln none k => wfS fns vd Γ k
+  | vd, Γ, .putc _ k => wfS fns vd Γ k
+  | vd, Γ, .block b k => wfS fns vd Γ b && wfS fns vd Γ k
+  | vd, Γ, .ifb c t e k => boundB Γ c && wfS fns vd Γ t && wfS fns vd Γ e && wfS fns vd Γ k
+  | vd, Γ, .loop c body cont k => boundB Γ c && wfS fns vd Γ body && wfS fns vd Γ cont && wfS fns vd Γ k
+  | vd, Γ, .defeat k => wfS fns vd Γ k
+  | vd, Γ, .defeatIf c k => boundB Γ c && isD c && wfS fns vd Γ k
+  | vd, Γ, .tryUndo body handler k => wfS fns vd Γ body && wfS fns vd Γ handler && wfS fns vd Γ k
   | _, Γ, .retE e => boundE Γ e
-  | vd, Γ, .callS _ args k => args.all (boundE Γ) && wfS vd Γ k
-  | vd, Γ, .declCall x _ args k => args.all (boundE Γ) && !Γ.contains x && wfS vd (x :: Γ) k
-  | vd, Γ, .assignCall x _ args k => Γ.contains x && args.all (boundE Γ) && wfS vd Γ k
+  | vd, Γ, .callS g args k => args.all (boundE Γ) && wfS fns vd Γ k && (vd || !isDfn fns g)
+  | vd, Γ, .declCall x g args k => args.all (boundE Γ) && !Γ.contains x && wfS fns vd (x :: Γ) k && !isDfn fns g
+  | vd, Γ, .assignCall x g args k => Γ.contains x && args.all (boundE Γ) && wfS fns vd Γ k && !isDfn fns g
   | _, _, .brk => true
   | _, _, .cnt => true
-  | vd, Γ, .tryStop body handler k => !Γ.contains "%ap" && wfS true ("%ap" :: Γ) body && wfS vd Γ handler && wfS vd Γ k
+  | vd, Γ, .tryStop body handler k => !Γ.contains "%ap" && wfS fns true ("%ap" :: Γ) body && wfS fns vd Γ handler && wfS fns vd Γ k
 
 /-- no `try` inside (the body of a `try` is a defeat context, where `try` is not allowed) -/
 def noTry : S → Bool
@@ -979,36 +991,38 @@ def noTry : S → Bool
   | .tryStop _ _ _ => false
 
 /-- neither `try` nor defeat calls -/
-def plain : S → Bool
+def plain (fns : List FDecl) : S → Bool
   | .nil => true | .ret => true
-  | .decl _ _ k => plain k | .assign _ _ k => plain k | .write _ k => plain k | .writeln _ k => plain k
-  | .putc _ k => plain k
-  | .block b k => plain b && plain k
-  | .ifb _ t e k => plain t && plain e && plain k
-  | .loop _ body cont k => plain body && plain cont && plain k
+  | .decl _ _ k => plain fns k | .assign _ _ k => plain fns k | .write _ k => plain fns k | .writeln _ k => plain fns k
+  | .putc _ k => plain fns k
+  | .block b k => plain fns b && plain fns k
+  | .ifb _ t e k => plain fns t && plain fns e && plain fns k
+  | .loop _ body cont k => plain fns body && plain fns cont && plain fns k
   | .defeat _ => false | .defeatIf _ _ => false
   | .tryUndo _ _ _ => false
   | .retE _ => true
-  | .callS _ _ k => plain k | .declCall _ _ _ k => plain k | .assignCall _ _ _ k => plain k
+  | .callS g _ k => !isDfn fns g && plain fns k | .declCall _ g _ k => !isDfn fns g && plain fns k
+  | .assignCall _ g _ k => !isDfn fns g && plain fns k
   | .brk => true | .cnt => true
   | .tryStop _ _ _ => false
 
 /-- the flavour rules on core programs (guaranteed by the parser, C06): at the level of the you
 function defeat calls occur only inside `try` bodies, `try` is not nested, handlers are plain;
 `st` says whether `try/stop` may occur (the state section then has the words `try_fp` and `defeat`) -/
-def youLevel (st : Bool) : S → Bool
+def youLevel (st : Bool) (fns : List FDecl) : S → Bool
   | .nil => true | .ret => true
-  | .decl _ _ k => youLevel st k | .assign _ _ k => youLevel st k | .write _ k => youLevel st k | .writeln _ k => youLevel st k
-  | .putc _ k => youLevel st k
-  | .block b k => youLevel st b && youLevel st k
-  | .ifb _ t e k => youLevel st t && youLevel st e && youLevel st k
-  | .loop _ body cont k => youLevel st body && youLevel st cont && youLevel st k
+  | .decl _ _ k => youLevel st fns k | .assign _ _ k => youLevel st fns k | .write _ k => youLevel st fns k | .writeln _ k => youLevel st fns k
+  | .putc _ k => youLevel st fns k
+  | .block b k => youLevel st fns b && youLevel st fns k
+  | .ifb _ t e k => youLevel st fns t && youLevel st fns e && youLevel st fns k
+  | .loop _ body cont k => youLevel st fns body && youLevel st fns cont && youLevel st fns k
   | .defeat _ => false | .defeatIf _ _ => false
-  | .tryUndo body handler k => noTry body && plain handler && youLevel st k
+  | .tryUndo body handler k => noTry body && plain fns handler && youLevel st fns k
   | .retE _ => true
-  | .callS _ _ k => youLevel st k | .declCall _ _ _ k => youLevel st k | .assignCall _ _ _ k => youLevel st k
+  | .callS g _ k => !isDfn fns g && youLevel st fns k | .declCall _ g _ k => !isDfn fns g && youLevel st fns k
+  | .assignCall _ g _ k => !isDfn fns g && youLevel st fns k
   | .brk => true | .cnt => true
-  | .tryStop body handler k => st && noTry body && plain handler && youLevel st k
+  | .tryStop body handler k => st && noTry body && plain fns handler && youLevel st fns k
 
 /-- control never falls off the end of the list (the front end appends `return;` to every `void`
 function that could, and rejects the others: `FuncDefinition.evaluate`) -/
@@ -1086,9 +1100,9 @@ def stopOK : S → Bool
 
 /-- the static conditions the theorems assume of a program (all guaranteed by the front end) -/
 def wfProg (pr : CProg) : Bool :=
-  pr.params.Nodup && wfS false pr.params pr.body && youLevel (hasStop pr.body) pr.body && noFall pr.body && escFree false pr.body &&
+  pr.params.Nodup && wfS pr.funs false pr.params pr.body && youLevel (hasStop pr.body) pr.funs pr.body && noFall pr.body && escFree false pr.body &&
   stopOK pr.body && callsOK pr.funs pr.body &&
   (pr.funs.map (·.name)).Nodup &&
-  pr.funs.all (fun fd => fd.params.Nodup && wfS false fd.params fd.body && plain fd.body && callsOK pr.funs fd.body)
+  pr.funs.all (fun fd => fd.params.Nodup && wfS pr.funs fd.dfn fd.params fd.body && (if fd.dfn then noTry fd.body else plain pr.funs fd.body) && callsOK pr.funs fd.body)
 
 end HidVerif.Core
